@@ -1,15 +1,29 @@
 use crate::dual::dual::{Dual, Dual2};
 use crate::dual::enums::Number;
+use crate::dual::linalg::fouter11_;
 use auto_ops::impl_op_ex;
 use num_traits::Pow;
 use std::sync::Arc;
 
 impl_op_ex!(/ |a: &Dual, b: &f64| -> Dual { Dual {vars: Arc::clone(&a.vars), real: a.real / b, dual: (1_f64/b) * &a.dual} });
-impl_op_ex!(/ |a: &f64, b: &Dual| -> Dual { a * b.clone().pow(-1.0) });
+impl_op_ex!(/ |a: &f64, b: &Dual| -> Dual {
+    // a / x: value a/x, derivative -a/x^2 (the value is the plain quotient, as for `f64 / f64`)
+    Dual {vars: Arc::clone(&b.vars), real: a / b.real, dual: (-a / (b.real * b.real)) * &b.dual}
+});
 impl_op_ex!(/ |a: &Dual2, b: &f64| -> Dual2 {
     Dual2 {vars: Arc::clone(&a.vars), real: a.real / b, dual: (1_f64/b) * &a.dual, dual2: (1_f64/b) * &a.dual2}
 });
-impl_op_ex!(/ |a: &f64, b: &Dual2| -> Dual2 { a * b.clone().pow(-1.0) });
+impl_op_ex!(/ |a: &f64, b: &Dual2| -> Dual2 {
+    // a / x: value a/x, first derivative -a/x^2, half second derivative a/x^3
+    let c1 = -a / (b.real * b.real);
+    let c2 = a / (b.real * b.real * b.real);
+    Dual2 {
+        vars: Arc::clone(&b.vars),
+        real: a / b.real,
+        dual: c1 * &b.dual,
+        dual2: c1 * &b.dual2 + c2 * fouter11_(&b.dual.view(), &b.dual.view()),
+    }
+});
 
 // impl Div for Dual
 impl_op_ex!(/ |a: &Dual, b: &Dual| -> Dual {
